@@ -726,6 +726,8 @@ func (e *evaluator) eval(n *node) val {
 			return boolean(!(x.s != ""))
 		case vNil:
 			return boolean(true)
+		case vSlice:
+			return boolean(x.s == "nil") // a nil slice is nil; any other slice (also an empty one) is "not 0, '' or nil"
 		}
 		return poison
 	case kBin:
@@ -783,7 +785,10 @@ func (e *evaluator) bin(n *node) val {
 				return num(math.NaN())
 			}
 			const lim = 9.0e18
-			if math.IsNaN(a) || math.IsNaN(b) || math.Abs(a) > lim || math.Abs(b) > lim {
+			if math.IsNaN(a) || math.IsNaN(b) {
+				return num(math.NaN()) // float64 arithmetic: an undefined operand (x/0) gives an undefined remainder
+			}
+			if math.Abs(a) > lim || math.Abs(b) > lim {
 				return poison // int64 conversion is implementation-defined
 			}
 			ib := int64(b)
@@ -928,7 +933,7 @@ func (fk *fieldKind) setField(f reflect.Value, v string) (val, error) {
 		return num(float64(i)), nil
 	case "[]int":
 		if v == "nil" {
-			return val{t: vSlice}, nil
+			return val{t: vSlice, s: "nil"}, nil
 		}
 		var s []int
 		if err := json.Unmarshal([]byte(v), &s); err != nil {
@@ -1180,6 +1185,12 @@ func (f family) texts(g *grammar) []string {
 		for _, e := range all(tS, f.K) {
 			out = append(out, "in("+e+",'a','aa','ab')", "len("+e+")==2", "in('aa',"+e+")")
 		}
+	case "slice-truth":
+		out = append(out, "!$", "!!$", "!!!$", "!$==true", "!!$&&true", "false||!$")
+	case "regexp-nonstring":
+		// regexp on an operand that is not a string never matches; a leading '!' negates that like any other result, with
+		// or without parentheses around the call (two printings of one tree, "\x00"-separated)
+		out = append(out, "!regexp('^a',$)\x00!(regexp('^a',$))", "!regexp('^a',$)&&true\x00(!(regexp('^a',$)))&&true", "true&&!regexp('^a',$)\x00true&&!(regexp('^a',$))")
 	case "self-compare":
 		// the field on both sides (for slice fields the operands are not comparable Go values: no verdict is demanded,
 		// but evaluation must not panic)
@@ -1267,6 +1278,10 @@ func families(thorough bool) []family {
 func addText(_ int, fs *[]family) {
 	for _, f := range []string{"int", "float64", "string", "bool", "*int"} {
 		*fs = append(*fs, family{Field: f, K: 0, Alpha: alFull, Text: "unary-chain"}, family{Field: f, K: 1, Alpha: alReduced, Text: "unary-chain"})
+	}
+	*fs = append(*fs, family{Field: "[]int", K: 0, Alpha: alFull, Text: "slice-truth"})
+	for _, f := range []string{"int", "bool", "*int", "float64"} {
+		*fs = append(*fs, family{Field: f, K: 0, Alpha: alFull, Text: "regexp-nonstring"})
 	}
 	for _, f := range allFields {
 		*fs = append(*fs, family{Field: f, K: 0, Alpha: alFull, Text: "self-compare"})
@@ -1563,7 +1578,12 @@ func workerMain() {
 // itemCase builds the printings of one item; ok=false when the item is skipped.
 func itemCase(f family, g *grammar, idx int64) (cs Case, ok bool) {
 	if f.Text != "" {
-		return Case{Field: f.Field, Values: kindByName(f.Field).vals, Exprs: []string{f.texts(g)[idx]}, Styles: []string{f.Text}}, true
+		ps := strings.Split(f.texts(g)[idx], "\x00")
+		st := make([]string, len(ps))
+		for i := range ps {
+			st[i] = fmt.Sprintf("%s#%d", f.Text, i)
+		}
+		return Case{Field: f.Field, Values: kindByName(f.Field).vals, Exprs: ps, Styles: st}, true
 	}
 	tree, ok := f.item(g, idx)
 	if !ok {
